@@ -55,6 +55,9 @@ type Check struct {
 	// are not executed (resume after a crash).
 	EnumPar   func(tier string, part, parts, skip int, deadline time.Time, note func(idx int, desc string)) *EnumResult
 	EnumParts map[string]int
+	// Also lists properties whose violations, when they occur in this
+	// check's own scenarios, are violations of this property too.
+	Also []string
 	// Bounds per tier for Mode S, applied to scenarios that do not set their own.
 	Bound       map[string]int
 	Budget      map[string]time.Duration
@@ -126,7 +129,19 @@ func Worker() {
 		sc := scenarioByName(c, it.Tier, it.Scenario)
 		st := mc.NewStats()
 		e := &mc.Explorer{Sc: sc, Bound: it.Bound, Stats: st, CurFile: cur, Budget: it.Budget, ReplayMod: 64,
-			Filter: func(v mc.Violation) bool { return v.Prop == it.Prop || v.Prop == "*" }}
+			Filter: func(v *mc.Violation) bool {
+				if v.Prop == it.Prop || v.Prop == "*" {
+					return true
+				}
+				for _, a := range c.Also {
+					if v.Prop == a {
+						v.Kind = v.Prop + ":" + v.Kind
+						v.Prop = it.Prop
+						return true
+					}
+				}
+				return false
+			}}
 		e.Explore(it.Prefix, it.Devs)
 		b, _ := json.Marshal(WorkResult{Stats: st})
 		out.Write(b)
